@@ -3,7 +3,7 @@
    terminal consumes at least one character, and neither fuel (lex_all, match_trivia) can run out.
    What is not: absence of panics / hangs in the Rust code (explored by harness/h10 on the real
    lexer, parser and formatter; never proved). *)
-From Syntax Require Import Lexer LexerProofs.
+From Syntax Require Import Lexer LexerProofs TokenStream TokenStreamProofs.
 
 (* lex_all never runs out of fuel; its result is ts ++ [EndOfFile]; no terminal of ts is
    EndOfFile and each has a non-empty token text; every trivium anywhere is non-empty. *)
@@ -22,6 +22,18 @@ Theorem C09_trivia_fuel_sufficient : forall fuel leading l,
   match_trivia_go fuel leading l = match_trivia leading l.
 Proof. exact match_trivia_fuel_sufficient. Qed.
 
+(* Every diagnostic the token-plumbing model reports (skip_token at EndOfFile, missing nodes, the
+   merged skipped-token diagnostics, skip_until's span), over every operation sequence that
+   respects the side conditions [ops_ok] (see Props/C10.v), has start <= end <= |source| - also
+   after the final step of parse_syntax_file. *)
+Theorem C09_diag_in_file : forall (src : str) (ops : list op), ops_ok src ops = true ->
+  Forall (fun d => let '(_, a, b) := d in (a <= b)%N /\ (b <= str_width src)%N)
+         (p_diags (run_ops src ops))
+  /\ (peek_kind (run_ops src ops) = TEndOfFile ->
+      Forall (fun d => let '(_, a, b) := d in (a <= b)%N /\ (b <= str_width src)%N)
+             (p_diags (finish_file src (run_ops src ops)))).
+Proof. exact diag_in_file. Qed.
+
 (* non-vacuity: garbage (NUL, form feed, lone CR, unterminated string) still ends in EndOfFile *)
 Example C09_example :
   let s := [0; 12; 13; 39; 97]%N in
@@ -30,3 +42,4 @@ Proof. vm_compute. reflexivity. Qed.
 
 Print Assumptions C09_lexer_total_progress.
 Print Assumptions C09_trivia_fuel_sufficient.
+Print Assumptions C09_diag_in_file.
